@@ -113,4 +113,20 @@ PROPS = {
                 "slice specification, legacy --trim/--trimstart/--trimend vs --start/--end through the gofasta binary, --wrap w (1..L+2) un-wrapped vs unwrapped; "
                 "toPairAlign: windows through the gapped reference row, --wrap; non-trivial = a window, a wrap width or a relation is exercised",
     },
+    "C08": {
+        "streams": {"C08": (600, 10000)},
+        "thorough_seeds": 3,
+        "shrink": True,
+        "rule": "A/C/G/T references 6-60 wide; 1-5 queries and 1-30 targets built from a small SNP pool (shared SNPs, two alternative bases at one site, "
+                "duplicates, copies of a query) with single ambiguous sites, tracts and sprinkled codes so both thresholds bind; option sets: --size-total, "
+                "--size-up/-down/-side/-same (incl. -1), + --dist-all, --dist-all alone, --dist-up/-down/-side, --dist-push 1-3, mixed size+dist, no option at all; "
+                "--no-fill, --threshold-pair 0/0.1/0.25/0.5/1, --threshold-target 0/2/5/10000, --ignore 0-3 ids, --table; updown.TopRanking in-process (fasta/fasta); "
+                "the spec verdict is relational (bin membership, distances, prefix order, size constraints, evenness)",
+    },
+    "C09": {
+        "streams": {"C09": (400, 6000)},
+        "thorough_seeds": 3,
+        "rule": "as C08 (1-5 queries: m > 1 in about 80% of cases); the CSV forms are produced by the real updown.List; the real TopRanking is run in all four "
+                "csv/fasta combinations and the four outputs must be byte-identical and not an error",
+    },
 }
